@@ -261,6 +261,11 @@ def run(pid, P, a, seed, t0):
         if all(o.status == "unsat" for o in os_):
             print(f"CHECKER-ERROR property={pid}: vacuous contract - every {k} path of {f} is infeasible")
             return 3
+    for r in results:
+        if r.paths == 0 and not r.qual.startswith(("lemma:", "rt:")):
+            print(f"CHECKER-ERROR property={pid}: vacuous - no path of {r.qual} reaches a return under its contract "
+                  f"(a callee postcondition contradicts the caller's state, or the precondition is unsatisfiable)")
+            return 3
     if not real and not degraded:
         print(f"CHECKER-ERROR property={pid}: zero obligations generated")
         return 3
